@@ -1320,7 +1320,7 @@ class P(Prop):
                 return "err:unknown"
             return "err:af"
         return {"KeyError": "err:key", "IndexError": "err:index", "ValueError": "err:value", "TypeError": "err:type",
-                "SystemExit": "err:exit", "ZeroDivisionError": "err:zerodiv", "OverflowError": "err:overflow"}.get(nm, "err:" + nm)
+                "SystemExit": "err:exit", "ZeroDivisionError": "err:value", "OverflowError": "err:value"}.get(nm, "err:" + nm)
 
     ROUTED = set("+-/*^><()='{")       # '{' since fix 396f8f9
 
